@@ -13,7 +13,7 @@ import copy
 from ..absint import Interp, CTX, Cst, D, Tup
 from .. import hd, astq, symidx
 from ..hd import SEC, expect, events_to_obligations
-from ..program import rel
+from ..program import rel, FuncInfo
 from ..poly import P
 
 FN = "functions.fdd.SD_est"
@@ -122,6 +122,12 @@ def pairing(prog, run, fi, f):
             run.ob("R-pairing", fi.qual, "operands", None, f"operand form not recognised: `{astq.src(x0) if x0 is not None else None}`, `{astq.src(y0) if y0 is not None else None}`", file=f, node=c, config=cfg)
             continue
         ok = a[0] == p_all and b[0] == p_ref
+        if not ok:
+            # operands named after a conversion of the argument (Y1 = np.asarray(Yall, float) ..): which argument each is made of
+            da, dr = astq._depends_on(fi.node, {p_all}, data_only=True), astq._depends_on(fi.node, {p_ref}, data_only=True)
+            sa_ = {k_ for k_, d_ in (("all", da), ("ref", dr)) if a[0] in d_}
+            sb_ = {k_ for k_, d_ in (("all", da), ("ref", dr)) if b[0] in d_}
+            ok = True if (sa_ == {"all"} and sb_ == {"ref"}) else (False if (sa_ == {"ref"} and sb_ == {"all"}) else None)
         run.ob("R-pairing", fi.qual, "first operand (conjugated) derives from Yall, second from Yref", ok,
                f"x <- {a[0]}, y <- {b[0]}", witness=f"x<-{a[0]},y<-{b[0]}", file=f, node=c, config=cfg)
         ok = a[1] == 1 and a[2] == 0 and b[1] == 0 and b[2] == 1
@@ -287,6 +293,11 @@ def welch_by_hand(prog, run, fi, f):
         run.ob("R-param", fi.qual, "segment stride = nxseg - nxseg*pov", None, "neither a scipy.signal.csd call nor segments cut with sliding_window_view(..)[::step] found", file=f, config="by hand")
 
 
+def P_half():
+    from fractions import Fraction
+    return P.c(Fraction(1, 2))
+
+
 def cor_chain(prog, run):
     run.rule("R-cor-chain", "correlogram estimator: raw (boxcar, non-overlapping, zero-padded) periodogram -> inverse FFT -> exponential lag window -> FFT", 4)
     fi = prog.func(FN)
@@ -325,8 +336,13 @@ def cor_chain(prog, run):
         nov = astq.kwarg(c, "noverlap")
         nfft = se.ev(astq.kwarg(c, "nfft")) if astq.kwarg(c, "nfft") is not None else None
         nps = astq.kwarg(c, "nperseg")
+        npv = se.ev(nps) if nps is not None else None
+        half = npv is not None and (npv == P.s("nxseg") * P_half() or repr(npv) in ("floor(1/2*nxseg)", "1/2*nxseg") or astq.src(nps).replace(" ", "") in ("nxseg//2", "int(nxseg/2)"))
         okk = isinstance(w, ast.Constant) and w.value == "boxcar" and isinstance(nov, ast.Constant) and nov.value == 0 and nfft is not None and nfft == P.s("nxseg") \
-            and nps is not None and astq.src(nps).replace(" ", "") in ("nxseg//2", "int(nxseg/2)")
+            and nps is not None and half
+        if not okk and isinstance(w, ast.Constant) and w.value == "boxcar" and isinstance(nov, ast.Constant) and nov.value == 0 and nfft is not None and nfft == P.s("nxseg") \
+                and (npv is None or any(s_ != "nxseg" and not s_.startswith("floor(") for k_ in npv.t for s_, _e in k_)):
+            okk = None          # the segment length is written in terms that were not resolved
         if not okk and astq.kwargs_open(c) and None in (w, nov, nps):
             okk = None          # the options travel through `**...`: what is not written at the call is not known to be absent
         run.ob("R-cor-chain", fi.qual, "raw periodogram: boxcar window, no overlap, segments of nxseg/2 zero-padded to nxseg", okk,
@@ -343,7 +359,32 @@ def cor_chain(prog, run):
             # tau = -M / log(0.01): the window falls to 1 % at the last lag
             t = astq.src(tau, 4000).replace(" ", "")
             okw = "log(0.01)" in t and t.startswith("-")
-    run.ob("R-cor-chain", fi.qual, "exponential lag window starting at lag 0 and decaying to 1 % at the last lag", bool(okw), f"`{detail}`", witness=detail[:80], file=f, node=rets[-1])
+    okw = bool(okw)
+    if not okw:
+        # a window made by a helper of the package is looked into once; anything that is not an exponential-window call is not judged
+        wcall = win
+        if isinstance(wcall, ast.Call) and astq.callee_name(prog, pf, wcall) != "scipy.signal.windows.exponential":
+            r_ = None
+            try:
+                r_ = prog.resolve_call(pf, wcall)
+            except Exception:
+                pass
+            inner = None
+            if isinstance(r_, FuncInfo):
+                for n_ in ast.walk(r_.node):
+                    if isinstance(n_, ast.Call) and astq.callee_name(prog, r_, n_) == "scipy.signal.windows.exponential":
+                        inner = (r_, n_)
+            if inner is not None:
+                r_, n_ = inner
+                cen, sym, tau = astq.kwarg(n_, "center", 1), astq.kwarg(n_, "sym", 3), astq.kwarg(n_, "tau", 2)
+                t = astq.src(astq.expr_at(r_, n_, tau), 4000).replace(" ", "") if tau is not None else ""
+                okw = isinstance(cen, ast.Constant) and cen.value == 0 and isinstance(sym, ast.Constant) and sym.value is False and "log(0.01)" in t and t.startswith("-")
+                detail = astq.src(n_, 100) + f" (in {r_.node.name})"
+            else:
+                okw = None
+        elif not isinstance(wcall, ast.Call):
+            okw = None
+    run.ob("R-cor-chain", fi.qual, "exponential lag window starting at lag 0 and decaying to 1 % at the last lag", okw, f"`{detail}`", witness=detail[:80], file=f, node=rets[-1])
 
 
 MUTANTS += [
